@@ -13,7 +13,7 @@ EXTENDS Naturals, Sequences, FiniteSets, TLC, Json, IOUtils
 T == ndJsonDeserialize(IOEnv.OBS)
 Tags == {T[i].c : i \in 1..Len(T)} \ {"", "?"}
 Observable == {"hstart", "hunbind", "hend", "eof", "onclose_out", "stop_ret", "run_ret", "ready"}
-Key(e) == <<e.ev, e.c, (IF e.ev \in {"hstart", "hunbind", "hend"} THEN e.i ELSE 0), e.s>>
+Key(e) == <<e.ev, e.c, (IF e.ev \in {"hstart", "hunbind", "hend"} THEN e.i ELSE 0), (IF e.ev = "run_ret" THEN "" ELSE e.s)>>
 KeyX(e) == <<e.val, e.c, e.i, e.s>>      \* of an "expect" line
 
 VARIABLES l,        \* last consumed line
@@ -25,12 +25,14 @@ VARIABLES l,        \* last consumed line
           eofSeen,  \* [Tags -> BOOLEAN] the client has seen the server close the connection
           quiet,    \* [Tags -> BOOLEAN] a failing Write is no surprise: the client closed / stopped reading, or Stop was called
           kinds,    \* [Tags -> set of <<i, kind>>] frames sent
+          wrote,    \* set of <<c, i>>: handlers whose Write returned without error
+          got,      \* set of <<c, i>>: final responses the client received
           bad       \* name of the first order monitor that failed at this line, or ""
-tvars == <<l, exp, obs, held, connOf, ocCount, ocIDs, eofSeen, quiet, kinds, bad>>
+tvars == <<l, exp, obs, held, connOf, ocCount, ocIDs, eofSeen, quiet, kinds, wrote, got, bad>>
 
 Fresh == /\ exp = <<>> /\ obs = <<>> /\ held = [c \in Tags |-> {}] /\ connOf = [c \in Tags |-> 0]
          /\ ocCount = [c \in Tags |-> 0] /\ ocIDs = {} /\ bad = ""
-         /\ eofSeen = [c \in Tags |-> FALSE] /\ quiet = [c \in Tags |-> FALSE] /\ kinds = [c \in Tags |-> {}]
+         /\ eofSeen = [c \in Tags |-> FALSE] /\ quiet = [c \in Tags |-> FALSE] /\ kinds = [c \in Tags |-> {}] /\ wrote = {} /\ got = {}
 \* a trace starts at a "reset" line (already consumed); "leak" and "proc_exit" lines are one-line traces
 InitT == (l \in {i \in 1..Len(T) : T[i].ev = "reset"} \/ l \in {i - 1 : i \in {j \in 1..Len(T) : T[j].ev \in {"leak", "proc_exit"}}}) /\ Fresh
 
@@ -58,7 +60,12 @@ Check(ev) ==
     [] ev.ev = "probe" /\ ev.n # 1 -> "C12_PortCanBeBoundAgain"
     [] ev.ev = "probe" /\ ev.m # 1 -> "C12_ConnectionsRefusedAfterStop"
     [] ev.ev = "run_ret" /\ ev.val # "nil" /\ ev.s # "expect-error" -> "C11_RunReturnsNil"
+    [] ev.ev = "run_ret" /\ ev.val = "nil" /\ ev.s = "expect-error" -> "C17_RunFailsWhenItCannotListen"
     [] ev.ev = "ready" /\ ev.val = "dial-failed" -> "C17_ReadyImpliesListening"
+    [] ev.ev = "ready_sample" /\ ev.k = "pre_listen" /\ ev.val = "true" -> "C17_NotReadyBeforeListening"
+    [] ev.ev = "tlsup" /\ ev.val # "ok" -> "C13_HandshakeSeesFirstClientByte"
+    [] ev.ev = "hend" /\ ev.val = "tls-err" /\ InTags(ev.c) /\ ~quiet[ev.c] -> "C13_HandshakeSeesFirstClientByte"
+    [] ev.ev = "plain_after_upgrade" -> "C13_EverythingIsTLSAfterUpgrade"
     [] ev.ev = "proc_exit" -> "C07_ProcessSurvives"
     [] ev.ev = "leak" /\ (ev.n > 0 \/ ev.m > 0) -> "C08_NothingLeaks"
     [] ev.ev = "garbage" -> "C05_StreamIsWholeMessages"
@@ -77,6 +84,8 @@ NextT ==
   /\ eofSeen' = IF e.ev = "eof" /\ InTags(e.c) THEN [eofSeen EXCEPT ![e.c] = TRUE] ELSE eofSeen
   /\ quiet' = IF e.ev \in {"close", "stopreading"} /\ InTags(e.c) THEN [quiet EXCEPT ![e.c] = TRUE]
               ELSE IF e.ev = "stop_call" THEN [c \in Tags |-> TRUE] ELSE quiet
+  /\ wrote' = IF e.ev = "hend" /\ e.val = "" /\ e.k # "unbind" THEN wrote \cup {<<e.c, e.i>>} ELSE wrote
+  /\ got' = IF e.ev = "recv" THEN got \cup {<<e.c, e.i>>} ELSE got
   /\ kinds' = IF e.ev = "send" /\ InTags(e.c) THEN [kinds EXCEPT ![e.c] = @ \cup {<<e.i, e.k>>}] ELSE kinds
 
 \* ---- invariants
@@ -90,6 +99,16 @@ MissingOf(k) == {x \in Missing : x[1] = k}
 ExtraOf(k) == {x \in Extra : x[1] = k}
 NoMissing(k) == ~AtEnd \/ MissingOf(k) = {} \/ Print(<<"MISSING", k, l, MissingOf(k)>>, FALSE)
 NoExtra(k)   == ~AtEnd \/ ExtraOf(k) = {} \/ Print(<<"EXTRA", k, l, ExtraOf(k)>>, FALSE)
+\* ... and they were there before the harness took its next environment action (it waits for them: 3 s at first)
+EnvEvents == {"send", "release", "close", "dial", "stop_call", "stopreading", "emfile"}
+AtEnv == l >= 1 /\ T[l].ev \in EnvEvents
+NotLate(k) == ~AtEnv \/ MissingOf(k) = {} \/ Print(<<"LATE", k, l, MissingOf(k)>>, FALSE)
+Late_hstart  == NotLate("hstart")      \* a request was not dispatched while earlier handlers were still running (C06)
+Late_hend    == NotLate("hend")
+Late_eof     == NotLate("eof")
+Late_onclose == NotLate("onclose_out")
+Late_stopret == NotLate("stop_ret")    \* Stop did not return although nothing held it (C11)
+Late_runret  == NotLate("run_ret")
 Missing_hstart  == NoMissing("hstart")        \* a request that should have been dispatched was not (C06)
 Missing_hend    == NoMissing("hend")
 Missing_hunbind == NoMissing("hunbind")       \* the unbind handler did not run (C10)
@@ -106,6 +125,10 @@ Extra_onclose   == NoExtra("onclose_out")     \* OnClose called more than once /
 Extra_stopret   == NoExtra("stop_ret")
 Extra_runret    == NoExtra("run_ret")
 Extra_ready     == NoExtra("ready")           \* Ready although the model says the listener never existed (C17)
+\* C04 / C05 / C13: every response a handler wrote without error has reached the client by the end of the scenario
+\* (unless the client went away, stopped reading, or the server was being stopped)
+Unanswered == {k \in wrote : k \notin got /\ InTags(k[1]) /\ ~quiet[k[1]]}
+EveryWriteArrives == ~AtEnd \/ Unanswered = {} \/ Print(<<"UNANSWERED", l, Unanswered>>, FALSE)
 \* every line of every trace is consumed
 NotStuck == (l < Len(T) /\ T[l + 1].ev # "reset" /\ (l = 0 \/ T[l].ev \notin {"end", "leak", "proc_exit"})) => ENABLED NextT
 =============================================================================
